@@ -3,6 +3,7 @@ package main
 import (
 	"fmt"
 	"strings"
+	"sync"
 
 	"github.com/koykov/dyntpl"
 )
@@ -129,6 +130,95 @@ func byteInputs(r *Run, allPairs bool, nRandom int, alphabet []byte) func(emit f
 				}
 			}
 			emit(b, "random")
+		}
+	}
+}
+
+// escConcurrent: the escapers running in several goroutines at once, each goroutine with a context of its own and
+// inputs of its own (the library's contract for concurrent use). Every render must give what the same render gives
+// running alone — in particular it still decodes to ITS input (a relation on the real engine alone; scratch state
+// shared between goroutines shows as a mix of two goroutines' inputs).
+func escConcurrent(r *Run, forms []*escForm, rounds int) {
+	const workers = 8
+	for _, f := range forms {
+		if f.key == "" {
+			k, err, pan := regTpl(f.Tpl, true)
+			if err != nil || pan != "" {
+				r.Internal(fmt.Sprintf("form %s does not parse: %v %s", f.Name, err, pan))
+				return
+			}
+			f.key = k
+		}
+	}
+	// inputs: every goroutine its own control characters, punctuation and non-ASCII letters
+	inputs := make([][]string, workers)
+	for g := 0; g < workers; g++ {
+		for k := 0; k < 6; k++ {
+			var sb strings.Builder
+			for j := 0; j < 4+k; j++ {
+				switch (g + j + k) % 4 {
+				case 0:
+					sb.WriteRune(rune(1 + (g*4+j*7+k*3)%31))
+				case 1:
+					sb.WriteByte("<>\"'&/\\ ;=+%#"[(g*3+j+k)%13])
+				case 2:
+					sb.WriteRune(rune(0x80 + (g*37+j*11+k*5)%0x700))
+				default:
+					sb.WriteByte(byte('a' + (g+j)%26))
+				}
+			}
+			inputs[g] = append(inputs[g], sb.String())
+		}
+	}
+	for _, f := range forms {
+		want := make([][]string, workers)
+		for g := 0; g < workers; g++ {
+			for _, in := range inputs[g] {
+				ctx := dyntpl.NewCtx()
+				ctx.SetString("v", in)
+				res := renderSafe(f.key, ctx)
+				want[g] = append(want[g], string(res.Out)+"\x00"+res.ErrStr())
+			}
+		}
+		type bad struct {
+			g         int
+			in, got   string
+			want      string
+			iteration int
+		}
+		var mu sync.Mutex
+		var bads []bad
+		var wg sync.WaitGroup
+		start := make(chan struct{})
+		for g := 0; g < workers; g++ {
+			wg.Add(1)
+			go func(g int) {
+				defer wg.Done()
+				ctx := dyntpl.NewCtx()
+				<-start
+				for it := 0; it < rounds; it++ {
+					i := it % len(inputs[g])
+					ctx.Reset()
+					ctx.SetString("v", inputs[g][i])
+					res := renderSafe(f.key, ctx)
+					if got := string(res.Out) + "\x00" + res.ErrStr(); got != want[g][i] {
+						mu.Lock()
+						if len(bads) < 3 {
+							bads = append(bads, bad{g, inputs[g][i], got, want[g][i], it})
+						}
+						mu.Unlock()
+						return
+					}
+				}
+			}(g)
+		}
+		close(start)
+		wg.Wait()
+		r.Count("concurrent:"+f.Name, true)
+		r.Dist["concurrent-renders"] += workers * rounds
+		for _, b := range bads {
+			r.Violate(fmt.Sprintf("concurrent form=%s in=%s", f.Name, hx([]byte(b.in))), "an escape rendered while other goroutines escape other values (each with its own context) gives another result than the same render running alone",
+				map[string]any{"form": f.Name, "template": f.Tpl, "input": b.in, "input_hex": hx([]byte(b.in)), "output": b.got, "output_alone": b.want, "goroutines": workers, "iteration": b.iteration})
 		}
 	}
 }
